@@ -94,6 +94,12 @@ def generate(rng, tier):
     # 253 inputs / 256 outputs
     for (fl, idx) in [(1, 252), (3, 252), (0x81, 0), (0x83, 252), (2, 1), (3, 255)]:
         cases.append(("tx.sighash", [G.BIG_COUNT_TX, str(idx), str(fl), "abac", "0"]))
+    # 4b'. null (coinbase) outpoint and each half of it at the signed index and elsewhere, duplicate null outpoints, sequences
+    # 0 / 0xfffffffe / 0xffffffff, version / locktime 0 and 2^32-1, zero- and max-value outputs with empty scripts: every flag x index
+    for t in G.COINBASE_TXS:
+        for fl in G.LEGACY_FLAGS + G.OTHER_FLAGS:
+            for idx in range(4):
+                S(t, idx, fl, "ab" + G.P2PKH, G.VALUES[(idx + fl) % len(G.VALUES)])
     # 4c. state carried in the object: optional annotations (satoshis, locking script) on the signed and on the other inputs, equal
     # and unequal to the call arguments (incl. value 0 / 2^64-1 and the empty subscript), on objects obtained directly, through clone,
     # JSON, CBOR, the construction API and hex; the preimage is a function of the wire fields and the arguments only
